@@ -203,16 +203,20 @@ class CallGraph:
                         res.append(i)
         return res
 
-    def reach(self, entries, stop=()):
+    def reach(self, entries, stop=(), scope=None):
         seen = {}
         order = []
         stats = defaultdict(int)
+        self.boundary = set()
         work = [(e, None) for e in entries]
         while work:
             f, parent = work.pop()
             if id(f) in seen:
                 continue
             if any(path_match(f.path, s) for s in stop):
+                continue
+            if scope is not None and parent is not None and not any(sc in f.path for sc in scope):
+                self.boundary.add(f.path)
                 continue
             seen[id(f)] = parent
             order.append(f)
@@ -256,11 +260,11 @@ def chain_of(seen, fn, by_id):
     return " <- ".join(ch)
 
 
-def run_k4(F, rep, entries, audit, bug_audit, rule="K4 may-panic", stop=(), skip_derived=True):
+def run_k4(F, rep, entries, audit, bug_audit, rule="K4 may-panic", stop=(), skip_derived=True, scope=None):
     """entries: list of Fn. audit: {(fn_path_suffix, kind): (count, reason)}.
     bug_audit: {fn_path_suffix: reason} functions allowed to hold `bug`-class sites."""
     cg = CallGraph(F)
-    order, seen, stats = cg.reach(entries, stop)
+    order, seen, stats = cg.reach(entries, stop, scope)
     found = defaultdict(list)
     bug_fns = defaultdict(list)
     nsites = 0
@@ -309,5 +313,7 @@ def run_k4(F, rep, entries, audit, bug_audit, rule="K4 may-panic", stop=(), skip
             rep.ok(rule, "%s: %d bug-class sites (%s)" % (fp, len(sites), ok), site)
     rep.stats.setdefault("k4", []).append({
         "entries": [e.path for e in entries], "functions_reached": len(order), "sites": nsites,
-        "cha_wide_resolutions": stats.get("cha_wide", 0)})
+        "cha_wide_resolutions": stats.get("cha_wide", 0),
+        "scope": list(scope) if scope else "all loaded crates",
+        "boundary_functions_not_descended": sorted(cg.boundary)[:60]})
     return order, found, bug_fns
